@@ -1,0 +1,10 @@
+//go:build verif
+
+// Contracts for the verifier in /verif (comment-only; compiled only with -tags verif, adds no code).
+package reference
+
+//@ contract (reference.Targets).Less (r, i, j)
+//@   requires 0 <= i && i < len(r) && 0 <= j && j < len(r)
+//@ contract (reference.Targets).Swap (r, i, j)
+//@   requires 0 <= i && i < len(r) && 0 <= j && j < len(r)
+//@   modifies r[*]
